@@ -11,6 +11,7 @@ import (
 	"github.com/ProjectSerenity/firefly/kernel"
 	"github.com/ProjectSerenity/firefly/kernel/gate"
 	"github.com/ProjectSerenity/firefly/kernel/mm"
+	"github.com/ProjectSerenity/firefly/kernel/multiboot"
 	"github.com/ProjectSerenity/firefly/kernel/zzverif/vlib"
 )
 
@@ -52,11 +53,12 @@ func c06ZeroFrameIsZero(m *vmMMU) bool {
 func TestVerifC06(t *testing.T) {
 	run := vlib.Start(t, "C06")
 	defer run.Finish()
-	run.SetRule("case = one address space after the real reserveZeroedFrame, then (A) mapping requests for the reserved zero frame through Map / MapTemporary / PageDirectoryTable.Map (active and inactive) with generated flag subsets, (B) a sequence of page faults delivered to the real pageFaultHandler: pages sharing the zero frame or holding random data frames, leaf entries with arbitrary subsets of the 11 flag bits, upper levels present or absent, any offset and error code, allocator / temporary-mapping failure injected at each step, repeated faults page after page; and the general-protection handler. non-trivial = case with >=2 recovered copy-on-write faults on pages sharing the zero frame, >=1 non-recoverable flag combination and >=1 injected failure; distinct = fingerprint of the fault list")
+	run.SetRule("case = one address space after the real reserveZeroedFrame (in half of the cases reached through the real vmm.Init for a kernel image without loadable sections; faults then go to the handlers Init registered for vectors 14 and 13), then (A) mapping requests for the reserved zero frame through Map / MapTemporary / PageDirectoryTable.Map (active and inactive) with generated flag subsets, (B) a sequence of page faults delivered to the real pageFaultHandler: pages sharing the zero frame or holding random data frames, leaf entries with arbitrary subsets of the 11 flag bits, upper levels present or absent, any offset and error code, allocator / temporary-mapping failure injected at each step, repeated faults page after page; and the general-protection handler. non-trivial = case with >=2 recovered copy-on-write faults on pages sharing the zero frame, >=1 non-recoverable flag combination and >=1 injected failure; distinct = fingerprint of the fault list")
 	run.Assume("faults are delivered by calling the handler directly as the IDT stub would (readCR2Fn returns the address); a Go panic stands for the kernel panic path; the faulting page's visible contents are supplied through a host window filled from the frame the software walker resolves")
 	m := vmNewMMU()
 	restore := m.install()
 	defer restore()
+	defer multiboot.SetInfoPtr(0)
 	if c06Window == nil {
 		c06Window = vlib.MustArena(0, c06WindowPages*4096, false)
 	}
@@ -91,8 +93,27 @@ func TestVerifC06(t *testing.T) {
 		c.Begin(map[string]interface{}{"seed_case": c.Idx})
 		failTempMap = false
 
-		// ---- the real reserveZeroedFrame ----
-		if err := reserveZeroedFrame(); err != nil {
+		// ---- the real reserveZeroedFrame, in half of the cases as the last step of the real vmm.Init ----
+		pfHandler, gpfHandler := pageFaultHandler, generalProtectionFaultHandler
+		if r.Bool() {
+			// a kernel image without loadable sections: Init builds and activates the kernel address space,
+			// installs the fault handlers and reserves the zero frame; from here on faults are delivered to
+			// whatever Init registered for the two vectors
+			multiboot.SetInfoPtr(c05BuildInfo([]c05Section{{name: ".shstrtab"}}, 0, r))
+			earlyReserveLastUsed = tempMappingAddr
+			var ierr *kernel.Error
+			ipv, _ := vlib.Protect(func() { ierr = Init(uintptr(r.PickU64([]uint64{0xffff800000000000, 0xffffff0000000000, 0x40000000}))) })
+			if ipv != nil || ierr != nil {
+				run.Count("init_not_ok(judged by C05)", 1)
+				return
+			}
+			run.Count("cases_after_the_real_Init", 1)
+			pfHandler, gpfHandler = m.handlers[gate.PageFaultException], m.handlers[gate.GPFException]
+			if pfHandler == nil || gpfHandler == nil {
+				c.Violationf("fault-handler-not-installed", "after vmm.Init a handler is registered for the page-fault vector: %v, for the general-protection vector: %v", pfHandler != nil, gpfHandler != nil)
+				return
+			}
+		} else if err := reserveZeroedFrame(); err != nil {
 			c.Violationf("reserve-zero-frame-failed", "reserveZeroedFrame: %v", err)
 			return
 		}
@@ -323,7 +344,7 @@ func TestVerifC06(t *testing.T) {
 				sample = append(sample, desc)
 			}
 			faultVA = p.va
-			pv, _ := vlib.Protect(func() { pageFaultHandler(&regs) })
+			pv, _ := vlib.Protect(func() { pfHandler(&regs) })
 			faultVA = 0
 			m.failAt = 0
 			failTempMap = false
@@ -419,7 +440,7 @@ func TestVerifC06(t *testing.T) {
 			run.Count("bytes_compared", 4096*3)
 			// the page is now private and writable: a second fault on it must panic (RW set)
 			if r.Chance(1, 3) {
-				pv2, _ := vlib.Protect(func() { pageFaultHandler(&regs) })
+				pv2, _ := vlib.Protect(func() { pfHandler(&regs) })
 				run.Count("faults_expected_to_panic", 1)
 				if pv2 == nil {
 					c.Violation("unrecoverable-fault-resumed", map[string]interface{}{"fault": desc, "what": "a second fault on the now writable private page was 'recovered' again"})
@@ -436,7 +457,7 @@ func TestVerifC06(t *testing.T) {
 		{
 			regs := gate.Registers{Info: r.U64()}
 			cr2 = r.U64()
-			pv, _ := vlib.Protect(func() { generalProtectionFaultHandler(&regs) })
+			pv, _ := vlib.Protect(func() { gpfHandler(&regs) })
 			run.Count("gpf_delivered", 1)
 			if pv == nil {
 				c.Violationf("gpf-resumed", "generalProtectionFaultHandler returned")
